@@ -2,7 +2,7 @@
 from pv import common, gen, detsched
 
 RULE = ("seeded generator of DCOPs (1-7 vars, domains 1-4, shapes chain/star/tree/cycle/clique/random/"
-        "components/isolated, unary+binary+ternary tables, variable costs, palettes ties/distinct/float/"
+        "components/isolated, unary+binary+ternary tables, variable costs, declared initial values in half of the instances, palettes ties/distinct/float/"
         "neg/huge, min and max); every instance run under several random per-channel-FIFO schedules with "
         "biases; non-trivial = >=2 variables sharing a constraint and >=1 UTIL and >=1 VALUE delivered; "
         "distinct by hash(instance, schedule choice list)")
@@ -91,9 +91,9 @@ def worker(job):
     nsched = job["nsched"]
     for i in range(job["lo"], job["hi"]):
         rng = common.rng_for(seed, "C01", i)
-        palettes = ("ties", "distinct", "float", "neg", "huge") if rng.random() < 0.5 else ("ties", "distinct")
+        palettes = ("ties", "distinct", "float", "neg", "huge", "bigbase") if rng.random() < 0.5 else ("ties", "distinct")
         case = gen.gen_case(rng, max_vars=7 if tier == "thorough" else 6, max_dom=4 if rng.random() < 0.3 else 3,
-                            palettes=palettes, max_space=3000)
+                            palettes=palettes, max_space=3000, initial=rng.random() < 0.5)
         csig = gen.case_sig(case)
         shared = any(len(c["scope"]) >= 2 for c in case["constraints"])
         cost_style = rng.choice(["dict", "dict", "expr", "func"])
